@@ -52,11 +52,13 @@ PROPS = {
    assumptions=["BLAKE2b is a function (arbitrary H in the theorems, the parameter blake2b_Sum256 of the translated migration code, assumed to return 32 bytes); len(trytes) < 2^63",
                 "address.go: ParsePrefix, Prefix.String, ParseBech32, Bech32 and the Bytes / Version methods are translated as code (stage 11; the interface Address as a CLOSED sum over the package's own three implementations — a foreign implementation passed to Bech32 is outside the translation; strings.ToLower/ToUpper/LastIndex assumed as in C04); ParseVersion, the String methods and the constructors from keys / output ids stay hand-modelled or pinned by text; migration.go with its iota.go callees (guards.IsTrytesOfExactLength, the iota.go copy of b1t6) is translated as code"],
    trusted_base=["Lean BLAKE2b oracle in the driver (validated against x/crypto by this run)"]),
- "C03": P("C03",
-   rule="ops: bip39.enc, bip39.dec (per op the word list is selected with SetWordList), hash.sha256. Every entropy length 12..68 (valid and invalid) x {all-zero, all-one, random, 1..4 leading zero bytes, "
+ "C03": P("C03", e2e="Iota.Tie.E2E.Bip39",
+   rule="ops: bip39.enc, bip39.dec (per op the word list is selected with SetWordList; each mirrored as gen.bip39.* and answered by the GENERATED EntropyToMnemonic / MnemonicToEntropy), hash.sha256. Every entropy length 12..68 (valid and invalid) x {all-zero, all-one, random, 1..4 leading zero bytes, "
         "1..4 trailing zero bytes, value 1} x {english, japanese}; all 2048 word indices of each list placed in every word position class; decode stream: valid sentences with a swapped/dropped/added/unknown/NFC-composed/"
-        "foreign-list word or two words exchanged",
-   assumptions=["SHA-256 is an arbitrary 32-byte-output function H in the theorems", "math/big operations modelled on Nat"],
+        "foreign-list word or two words exchanged; every single checksum bit and the 11 entropy bits next to it flipped in valid sentences of every size",
+   assumptions=["SHA-256 is an arbitrary 32-byte-output function H in the theorems (the parameter sha256_Sum256 of the translated code)",
+                "the three methods of the package-level interface variable wordList are those of one list of 2048 words during a call (structure Externs; no concurrent SetWordList — a documented API restriction)",
+                "math/big SetBytes/Bytes/Int64/And/Or/Lsh/Rsh/Cmp by their documented meaning on Int (translator stages 10 and 12, ownership discipline checked syntactically); len(entropy) < 2^59, fewer than 2^58 words"],
    trusted_base=["Lean SHA-256 oracle in the driver (validated against crypto/sha256 by hash.sha256 ops)", "committed official word lists (Iota/Spec/Bip39Words.lean), tied to the repository's lists and to the official digests"]),
  "C06": P("C06", e2e="Iota.Tie.E2E.Curl", tie="Iota.Tie.Curl",
    rule="ops: curl.hist = one whole history (A absorb with batch sizes 1..64 varying between calls and 0..3 blocks, lanes possibly longer than tritsCount; S squeeze of 0..2 blocks for 1..64 lanes; R reset; "
